@@ -6,14 +6,15 @@ import core
 import oracles
 
 SAFE = ["Model/Exec.v", "Model/ExecInv.v", "Proofs/ExecSafe.v", "Proofs/ExecCor.v"]
-LIVE = SAFE + ["Proofs/ExecLive.v", "Proofs/ExecMeasure.v", "Proofs/ExecLiveCor.v"]
+LIVE = SAFE + ["Proofs/ExecLive.v", "Proofs/ExecMeasure.v", "Proofs/ExecLiveCor.v",
+               "Model/StepExec.v", "Model/DepExec.v", "Model/LiveSpec.v", "Proofs/DepSafe.v", "Proofs/DepLive.v", "Proofs/DepLiveCor.v"]
 
 TABLE = {
     "C01": dict(kinds=["block", "step", "dep", "cblock"], oracle=oracles.c01, cone=SAFE, n=(70, 700)),
     "C02": dict(kinds=["block", "step", "dep", "cblock"], oracle=oracles.c02, cone=LIVE, n=(70, 700)),
     "C03": dict(kinds=["dep"], oracle=oracles.c03,
                 cone=["Model/Exec.v", "Model/ExecInv.v", "Model/StepExec.v", "Model/DepExec.v", "Proofs/ExecLive.v", "Proofs/DepSafe.v",
-                      "Model/Traverse.v", "Proofs/TraverseProofs.v"], n=(180, 1500)),
+                      "Model/Traverse.v", "Proofs/TraverseProofs.v", "Model/LiveSpec.v", "Proofs/DepLive.v", "Proofs/DepLiveCor.v"], n=(180, 1500)),
     "C04": dict(kinds=["dep", "step", "block"], oracle=oracles.c04,
                 cone=["Model/Exec.v", "Model/ExecInv.v", "Model/StepExec.v", "Model/DepExec.v", "Model/Worker.v", "Proofs/ExecLive.v",
                       "Proofs/DepSafe.v", "Proofs/C04Proofs.v"], n=(70, 700)),
